@@ -302,10 +302,18 @@ pub fn general_contexts(rng: &mut Rng) -> String {
 /// was already expanded — depends on production numbers
 pub fn nullable_tail_family(rng: &mut Rng) -> String {
     let nctx = rng.range(2, 4);
-    let ntail = rng.range(1, 2);
+    // the tail may be absent: then `A` is the head of a chain of unit rules, through which lookaheads
+    // have to travel several times when the rules are declared bottom-up
+    let ntail = rng.below(3);
+    let nchain = if ntail == 0 { rng.range(1, 3) } else { rng.below(3) };
     let mut rules: Vec<String> = Vec::new();
     let tail: Vec<String> = (0..ntail).map(|j| format!("O{}", j)).collect();
-    rules.push(format!("A: C {};", tail.join(" ")));
+    let head = if nchain == 0 { "C".to_string() } else { "H0".to_string() };
+    rules.push(format!("A: {} {};", head, tail.join(" ")).replace(" ;", ";"));
+    for i in 0..nchain {
+        let next = if i + 1 == nchain { "C".to_string() } else { format!("H{}", i + 1) };
+        rules.push(format!("H{}: {};", i, next));
+    }
     for j in 0..ntail {
         rules.push(if rng.chance(1, 2) { format!("O{}: | 'o{}';", j, j) } else { format!("O{}: 'o{}' | ;", j, j) });
     }
